@@ -272,10 +272,14 @@ impl Tokenizer {
     pub uninterp spec fn re(&self) -> int;
     pub uninterp spec fn errored(&self) -> bool;
     pub uninterp spec fn tok(&self) -> TokenType;
+    // the tokenizer is in the state a FRESH tokenizer starts in (not inside the raw text of <script>/<style>/<textarea>.., no pending context):
+    // what it will make of the following bytes does not depend on the bytes it has consumed. True of a new tokenizer; next() may leave it
+    // (a start tag of a raw-text element sets Tokenizer::raw_tag, unit tok), so nothing is promised after next().
+    pub uninterp spec fn ctx_free(&self) -> bool;
     pub open spec fn wf(&self) -> bool { 0 <= self.rs() <= self.re() <= self.reader().len() && (self.errored() ==> self.re() == self.reader().len()) }
     pub open spec fn raw_bytes(&self) -> Seq<u8> { self.reader().subrange(self.rs(), self.re()) }
     #[verifier::external_body]
-    pub fn new(reader: Vec<u8>) -> (r: Tokenizer) ensures r.wf(), r.reader() == reader@, r.rs() == 0, r.re() == 0, !r.errored() { unimplemented!() }
+    pub fn new(reader: Vec<u8>) -> (r: Tokenizer) ensures r.wf(), r.reader() == reader@, r.rs() == 0, r.re() == 0, !r.errored(), r.ctx_free() { unimplemented!() }
     #[verifier::external_body]
     pub fn next(&mut self) -> (r: std::result::Result<TokenType, HtmlParseError>)
         requires old(self).wf(),
@@ -310,6 +314,9 @@ impl HtmlFilterBodyAction {
     //      the chunk boundary;
     //  (A) stream-order discipline: text is emitted only while no element is being buffered (ghost assertions at every emission);
     //  (C) every unwrap is safe and every loop terminates (tokenizer progress).
+    //  (D) C03, restart condition: the next chunk is tokenised by a FRESH tokenizer over (carried-over tail ++ chunk); for the result to be that of
+    //      single-chunk filtering, the tokenizer abandoned at the end of this chunk must itself be in the fresh state (ctx_free). FAILS on this
+    //      tree: known finding F11.
     // NOT decided here: that the emitted/buffered text equals the routed tokens with only the visitor's edits applied.
     //@@ strip-path html::
     //@@ fn src/filter/html_filter_body.rs :: impl HtmlFilterBodyAction / fn filter -> r
@@ -329,8 +336,10 @@ impl HtmlFilterBodyAction {
     //@| loophead 0: let ghost re0 = tokenizer.re(); broadcast use axiom_iter_seq_vec;
     //@| loophead 1: broadcast use axiom_iter_seq_vec;
     //@| after `self.last_buffer.extend(tokenizer.buffered());`#0: proof { assert(self.last_buffer@ =~= d.subrange(tokenizer.rs(), d.len() as int)); }
+    //@| after `self.last_buffer.extend(tokenizer.buffered());`#0: proof { assert(tokenizer.ctx_free()); }
     //@| before `token_type = tokenizer.next()?;`#1: let ghost ts = tokenizer.rs();
     //@| after `self.last_buffer.extend(tokenizer.buffered());`#1: proof { assert(self.last_buffer@ =~= d.subrange(ts, d.len() as int)); }
+    //@| after `self.last_buffer.extend(tokenizer.buffered());`#1: proof { assert(tokenizer.ctx_free()); }
     //@| before `to_return.push_str(token_data.as_str());`#0: proof { assert(self.current_buffer.is_none()); }
     //@| before `to_return.push_str(token_data.as_str());`#1: proof { assert(self.current_buffer.is_none()); }
 
